@@ -746,3 +746,81 @@ def build_crowd(case):
                        atom_keep=(lambda ri, k: s3.residues[ri].atoms[k].name != "C1'") if strip else None)
         residues += list(part.residues)
     return Structure3D(residues)
+
+
+# ---------------------------------------------------------------------------
+# a structure pulled apart between two consecutive stacked residues: everything after residue i moves along the line of
+# the two centroids until their distance is a drawn value just inside 6 A - a qualifying pair at the far end of the
+# range, inside a structure of dozens of bases (where a spatial index prunes by cells, not by pairs)
+
+
+def st_pulled_apart(files):
+    from hypothesis import strategies as st
+
+    return st.fixed_dictionaries({"kind": st.just("pulled-apart"), "file": st.sampled_from(files), "at": st.integers(0, 10 ** 6),
+                                  "distance": st.sampled_from([5.5, 5.6, 5.7, 5.8, 5.9, 5.95, 5.99]),
+                                  "rot": st.integers(0, 23)})
+
+
+def build_pulled_apart(case):
+    s3 = corpus.structure(case["file"])
+    rr = geomref.from_structure3d(s3)
+    ok = [k for k in range(len(rr) - 1) if geomref.centroid(rr[k]) is not None and geomref.centroid(rr[k + 1]) is not None
+          and geomref.normal(rr[k]) is not None and geomref.normal(rr[k + 1]) is not None and rr[k].chain == rr[k + 1].chain
+          and 2.5 < float(np.linalg.norm(geomref.centroid(rr[k]) - geomref.centroid(rr[k + 1]))) < 5.4]
+    if not ok:
+        return s3
+    k = ok[case["at"] % len(ok)]
+    c0, c1 = geomref.centroid(rr[k]), geomref.centroid(rr[k + 1])
+    u = (c1 - c0) / float(np.linalg.norm(c1 - c0))
+    shift = (case["distance"] - float(np.linalg.norm(c1 - c0))) * u
+    R = np.array(AXIS_ROTATIONS[case["rot"] % 24], dtype=float)
+    return rebuild(s3, point_fn=lambda xyz, ri, a: R @ (xyz + shift if ri > k else xyz))
+
+
+# ---------------------------------------------------------------------------
+# four columns of six stacked copies of one base: two coaxial columns separated by a gap just inside 6 A, and two columns
+# 20-30 A to either side whose heights straddle the gap (one starts just above the lower column's top, one ends just
+# below the upper column's bottom): the pair across the gap qualifies, and whether a spatial index examines it depends
+# on where the OTHER columns put its cell boundaries
+
+
+def st_columns(files):
+    from hypothesis import strategies as st
+
+    return st.fixed_dictionaries({"kind": st.just("columns"), "file": st.sampled_from(files), "r": st.integers(0, 10 ** 6),
+                                  "gap": st.sampled_from([5.5, 5.6, 5.7, 5.75, 5.8, 5.9, 5.95]), "lateral": st.sampled_from([20.0, 25.0, 30.0]),
+                                  "up": st.sampled_from([0.1, 0.2, 0.4]), "down": st.sampled_from([0.3, 0.5, 1.0, 1.5]),
+                                  "rot": st.integers(0, 23), "mirror": st.booleans()})
+
+
+def build_columns(case):
+    from rnapolis.tertiary import Structure3D
+
+    s3 = corpus.structure(case["file"])
+    idx = complete_bases(case["file"])
+    if not idx:
+        raise ValueError("no complete bases in " + case["file"])
+    ri = idx[case["r"] % len(idx)]
+    ref = {r.idx: r for r in geomref.from_structure3d(s3)}[ri]
+    n = geomref.normal(ref)
+    n = n / np.linalg.norm(n)
+    c = geomref.centroid(ref)
+    e1 = _perp(n)
+    side = -1.0 if case.get("mirror") else 1.0
+    gap = case["gap"]
+    heights = []  # (chain, number, height, lateral)
+    e2 = np.cross(n, e1)
+    for k in range(6):
+        heights.append(("A", 7 + k, -3.4 * k, -0.3, 0.0))            # lower column, its top base at height 0
+        heights.append(("A", 6 - k, gap + 3.4 * k, 0.3, 0.0))        # upper column, its bottom base at height gap
+        heights.append(("B", 6 - k, case["up"] + 3.4 * k, -side * case["lateral"], 0.5))
+        heights.append(("C", 1 + k, gap - case["down"] - 3.4 * k, side * case["lateral"], -0.5))
+    R = np.array(AXIS_ROTATIONS[case["rot"] % 24], dtype=float)
+    residues = []
+    for chain, number, h, x, y in sorted(heights):
+        t = h * n + x * e1 + y * e2
+        part = rebuild(s3, keep={ri}, point_fn=lambda xyz, r_, a, t=t: R @ (xyz - c + t),
+                       ident_fn=lambda r_, ch, num, chain=chain, number=number: (chain, number))
+        residues += list(part.residues)
+    return Structure3D(residues)
